@@ -8,7 +8,7 @@ import (
 	"strings"
 )
 
-var frameRe = regexp.MustCompile(`(?m)^  ([^\s(]+)\(`)
+var frameRe = regexp.MustCompile(`(?m)^  (\S+)\(\)\s*$`)
 
 // RaceReport is one de-duplicated data-race report.
 type RaceReport struct {
